@@ -103,16 +103,22 @@ func runC11(c *Ctx) {
 			v1 = is
 		}
 	}
+	// names by role: the requested values are the variadic parameter, the answer is what the last return hands back
+	valuesName := namesOf(fn).P(1)
+	rngsName := "\x00none"
+	if last, ok := fn.Decl.Body.List[len(fn.Decl.Body.List)-1].(*ast.ReturnStmt); ok && len(last.Results) == 2 {
+		rngsName = canon(last.Results[0])
+	}
 	isAppend := func(st ast.Stmt) (string, bool) {
 		as, ok := st.(*ast.AssignStmt)
-		if !ok || len(as.Lhs) != 1 || len(as.Rhs) != 1 || canon(as.Lhs[0]) != "rngs" {
+		if !ok || len(as.Lhs) != 1 || len(as.Rhs) != 1 || canon(as.Lhs[0]) != rngsName {
 			return "", false
 		}
 		call, ok := unparen(as.Rhs[0]).(*ast.CallExpr)
 		if !ok || len(call.Args) != 2 {
 			return "", false
 		}
-		if id, ok := call.Fun.(*ast.Ident); !ok || id.Name != "append" || canon(call.Args[0]) != "rngs" {
+		if id, ok := call.Fun.(*ast.Ident); !ok || id.Name != "append" || canon(call.Args[0]) != rngsName {
 			return "", false
 		}
 		return canon(call.Args[1]), true
@@ -122,7 +128,7 @@ func runC11(c *Ctx) {
 	} else {
 		var loop *ast.RangeStmt
 		ast.Inspect(v1.Body, func(nd ast.Node) bool {
-			if rs, ok := nd.(*ast.RangeStmt); ok && canon(rs.X) == "values" {
+			if rs, ok := nd.(*ast.RangeStmt); ok && canon(rs.X) == valuesName {
 				loop = rs
 			}
 			return true
@@ -205,10 +211,11 @@ func runC11(c *Ctx) {
 		}
 		return true
 	})
-	want := []string{"valueIndex<len(values)&&values[valueIndex]<e.offsets[0].value", "len(rngs)<len(values)", "else-of:string(value)==wantedValue"}
+	want := []string{"§vi<len(§values)&&§values[§vi]<§e.offsets[0].value", "len(§rngs)<len(§values)", "else-of:string(§value)==§wanted"}
 	okV2 := notFound == 3
+	bindV2 := shapeBind{"§values": valuesName, "§rngs": rngsName}
 	for i := range want {
-		if i >= len(contexts) || contexts[i] != want[i] {
+		if i >= len(contexts) || !matchShape(want[i], contexts[i], bindV2) {
 			okV2 = false
 		}
 	}
@@ -289,7 +296,8 @@ func runC11(c *Ctx) {
 		ast.Inspect(po.Body(), func(nd ast.Node) bool {
 			if is, isIf := nd.(*ast.IfStmt); isIf {
 				t := stmtText(p, is.Cond)
-				if strings.Contains(t, "len(rngs)!=1") && strings.Contains(t, "rngs[0]==NotFoundRange") && strings.Contains(stmtText(p, is.Body), "NotFoundRangeErr") {
+				r := lhsOfCallTo(po, "postingsOffset", 0) // the ranges returned by the multi-value lookup
+				if strings.Contains(t, "len("+r+")!=1") && strings.Contains(t, r+"[0]==NotFoundRange") && strings.Contains(stmtText(p, is.Body), "NotFoundRangeErr") {
 					ok = true
 				}
 			}
